@@ -400,8 +400,11 @@ SPECS["C15"] = {
                    "retries disabled (-1) exactly one attempt. UTF-8: a merged batch in which one client's tag consists of ARBITRARY bytes still delivers the other "
                    "client's series (proto.Marshal's UTF-8 precondition is modelled, see stubs). SPLIT: SplitByTags on 1..2 series with symbolic tags (with or without "
                    "the dynamic-header prefix) puts each series in exactly one map, keyed by its matching tags, and the request built for that map carries the header "
-                   "with the tag's value.",
-    "bounds": {"quick": "<= 5 attempts (unwinding bound: longer scripts are cut by an assumption); invalid-UTF-8 tags of 1..2 arbitrary bytes; 1..2 series with 2..3 tags each (symbolic prefix region:/env:/none, one symbolic byte), two dynamic header names",
+                   "with the tag's value. PIPELINE: the real HttpForwarderHandlerV2.Run loop (start-up no-op post, merge and request semaphores, MergeMaps, SplitByTags, "
+                   "postMetrics, notifyFlush) as a goroutine under the engine's scheduler, the real MetricConsolidator with 1..3 slots and the real manual flush coordinator: k datapoints "
+                   "dispatched, Flush + WaitForFlush: every datapoint dispatched before the flush is delivered upstream in exactly one request, an empty flush posts nothing, the "
+                   "semaphores are fully returned.",
+    "bounds": {"quick": "pipeline: 0, 1, 3 datapoints over 2 names, 1..3 consolidator slots; <= 5 attempts (unwinding bound: longer scripts are cut by an assumption); invalid-UTF-8 tags of 1..2 arbitrary bytes; 1..2 series with 2..3 tags each (symbolic prefix region:/env:/none, one symbolic byte), two dynamic header names",
                "thorough": "same"},
     "outside": ["concurrent dispatch versus Drain/Fill of the consolidator, the request/merge semaphores under real scheduling, the manual flush coordinator", "http.Client behaviour (timeouts, redirects)",
                 "MergeMaps conservation is C07"],
@@ -409,8 +412,8 @@ SPECS["C15"] = {
     "jobs": [
         {"pkg": "./pkg/statsd", "harness": "pkg/statsd", "mode": "machine",
          "entries": {"quick": ["VerifC15_Retry2", "VerifC15_Retry3", "VerifC15_Retry5", "VerifC15_RetryNone", "VerifC15_Utf8_1", "VerifC15_Utf8_2",
-                               "VerifC15_Split_1_2", "VerifC15_Split_1_3", "VerifC15_Split_2_2", "VerifC15_Header", "VerifC15_Twin"]},
-         "reach": {"VerifC15_Retry3": ["dropped", "sent", "retried"], "VerifC15_Utf8_1": ["posted"], "VerifC15_Split_2_2": ["split"], "VerifC15_Header": ["header"]},
+                               "VerifC15_Split_1_2", "VerifC15_Split_1_3", "VerifC15_Split_2_2", "VerifC15_Header", "VerifC15_Pipeline0", "VerifC15_Pipeline1", "VerifC15_Pipeline3", "VerifC15_Twin"]},
+         "reach": {"VerifC15_Retry3": ["dropped", "sent", "retried"], "VerifC15_Utf8_1": ["posted"], "VerifC15_Split_2_2": ["split"], "VerifC15_Header": ["header"], "VerifC15_Pipeline3": ["pipeline"]},
          "twin": {"VerifC15_Twin": True},
          "limits": {"quick": {"timeout": "600s"}, "thorough": {"timeout": "600s"}}},
     ],
